@@ -276,6 +276,96 @@ def reentrant_programs(tier, r):
     return out
 
 
+# ---- directed programs: (a) interpreter-visible hooks rebound to values of the wrong kind, then the action that consults them;
+# (b) unbounded / very deep recursion of every kind the VM and the object model can be driven into.
+HOSTILE_VALUES = ['5', 'None', '"s"', '[5]', '[None]', '(1,)', '{}', 'lambda *a, **k: 5', 'lambda *a, **k: None', 'lambda *a, **k: "s"', 'lambda *a, **k: [5]', 'object()', 'int', '3.5']
+HOSTILE_SLOTS = ['sys.path = %s', 'sys.path.append(%s)', 'sys.path[0:0] = [%s]', 'builtins.__import__ = %s', 'sys.modules = %s', 'sys.modules["nosuch"] = %s', 'sys.modules["math"] = %s',
+                 'builtins.__build_class__ = %s', 'sys.stdout = %s', 'sys.stderr = %s', 'sys.argv = %s', 'builtins.print = %s', 'builtins.len = %s', 'builtins.iter = %s', 'builtins.next = %s',
+                 'builtins.isinstance = %s', 'builtins.repr = %s', 'builtins.str = %s', 'builtins.StopIteration = %s', 'builtins.ImportError = %s', 'builtins.__name__ = %s', 'sys.displayhook = %s',
+                 'globals()["__name__"] = %s', 'globals()["__builtins__"] = %s', 'math.pi = %s', 'sys.modules["sys"] = %s', 'builtins.__dict__ = %s']
+HOSTILE_DELS = ['del sys.path', 'del sys.modules', 'del sys.stdout', 'del builtins.__import__', 'del builtins.__build_class__', 'del builtins.print', 'del builtins.len', 'del builtins.StopIteration',
+                'del builtins.ImportError', 'globals().clear()', 'del globals()["__name__"]', 'sys.modules.clear()', 'builtins.__dict__.clear()' ]
+HOSTILE_ACTIONS = ['import nosuch', 'import math', 'import os', 'from math import pi', 'from math import nosuch', 'from nosuch import x', 'from math import *', 'from nosuch import *', 'import a.b.c',
+                   'class C:\n        pass', 'class C(int):\n        x = 1', 'print(1)', 'print(1, 2, sep="-", end="!")', 'print(1, file=None)', 'len([1])', 'for i in [1, 2]:\n        pass',
+                   'list(x for x in [1])', 'repr([1])', 'str(1)', '[1][5]', '1 // 0', 'isinstance(1, int)', 'sorted([2, 1])', 'def g():\n        yield 1\n    list(g())', 'next(iter([1]))',
+                   'with open("nosuch_file") as f:\n        pass', 'eval("1 + 1")', 'exec("import nosuch2")', 'compile("x", "f", "exec")', 'globals()', 'locals()', 'dir()', 'vars()']
+HOSTILE_TMPL = """import sys
+import builtins
+import math
+try:
+    %(slot)s
+except Exception:
+    print("slot-exc")
+try:
+    %(action)s
+    print("done")
+except BaseException:
+    print("exc")
+"""
+
+RECURSION_PROGRAMS = {
+    'function': 'def f(n):\n    return f(n + 1)\nf(0)\n',
+    'function-caught': 'def f(n):\n    return f(n + 1)\ntry:\n    f(0)\nexcept Exception:\n    print("exc")\nprint("alive")\n',
+    'mutual': 'def f(n):\n    return g(n + 1)\ndef g(n):\n    return f(n)\nf(0)\n',
+    'method': 'class A:\n    def m(self):\n        return self.m()\nA().m()\n',
+    'lambda': 'f = lambda: f()\nf()\n',
+    'generator': 'def g():\n    yield from g()\nfor x in g():\n    pass\n',
+    'genexp-chain': 'it = iter([1])\nfor i in range(200000):\n    it = (x for x in it)\nlist(it)\n',
+    'via-map': 'def f(n):\n    return list(map(f, [n + 1]))\nf(0)\n',
+    'via-sorted-key': 'def f(n):\n    return sorted([n], key=f)\nf(0)\n',
+    'repr-method': 'class A:\n    def __repr__(self):\n        return repr(self)\nrepr(A())\n',
+    'str-method': 'class A:\n    def __str__(self):\n        return str(self)\nstr(A())\n',
+    'getattr': 'class A:\n    def __getattr__(self, n):\n        return self.zzz\nA().x\n',
+    'call-class': 'class A:\n    def __init__(self):\n        A()\nA()\n',
+    'self-list-repr': 'L = [0]\nL[0] = L\nrepr(L)\n',
+    'self-dict-repr': 'D = {}\nD["k"] = D\nrepr(D)\n',
+    'self-list-str': 'L = [0]\nL.append(L)\nstr(L)\n',
+    'self-list-print': 'L = [0]\nL[0] = L\nprint(L)\n',
+    'self-list-eq': 'L = [0]\nL[0] = L\nM = [0]\nM[0] = M\nL == M\n',
+    'self-tuple-in-list-repr': 'L = []\nt = (L,)\nL.append(t)\nrepr(t)\n',
+    'deep-list-repr': 'L = []\nfor i in range(300000):\n    L = [L]\nrepr(L)\n',
+    'deep-tuple-eq': 'a = ()\nb = ()\nfor i in range(300000):\n    a = (a,)\n    b = (b,)\na == b\n',
+    'deep-list-eq': 'a = []\nb = []\nfor i in range(300000):\n    a = [a]\n    b = [b]\na == b\n',
+    'deep-tuple-hash': 'a = ()\nfor i in range(300000):\n    a = (a,)\nhash(a)\n',
+    'deep-expression-eval': 'eval("(" * 100000 + "1" + ")" * 100000)\n',
+    'deep-unary-eval': 'eval("-" * 200000 + "1")\n',
+    'deep-list-literal-eval': 'eval("[" * 100000 + "]" * 100000)\n',
+    'exec-recursion': 's = "exec(s)"\nexec(s)\n',
+    'import-recursion': 'def f():\n    __import__("nosuch_module_zz")\n    f()\ntry:\n    f()\nexcept ImportError:\n    print("exc")\n',
+    'deep-but-legal-900': 'def f(n):\n    if n == 0:\n        return 0\n    return 1 + f(n - 1)\nprint(f(900))\n',
+}
+
+
+def directed_programs(tier, r):
+    out = []
+    combos = [(sl % v, a) for sl in HOSTILE_SLOTS for v in HOSTILE_VALUES for a in HOSTILE_ACTIONS] + [(d, a) for d in HOSTILE_DELS for a in HOSTILE_ACTIONS]
+    if tier == 'quick':
+        # every (slot, value) and every (slot, action) pair at least once
+        sel = set()
+        for sl in HOSTILE_SLOTS:
+            for v in HOSTILE_VALUES:
+                sel.add((sl % v, r.choice(HOSTILE_ACTIONS)))
+            for a in HOSTILE_ACTIONS:
+                sel.add((sl % r.choice(HOSTILE_VALUES), a))
+        for d in HOSTILE_DELS:
+            for a in HOSTILE_ACTIONS:
+                sel.add((d, a))
+        # the pairs in which the slot is what the action consults: all values
+        for sl, acts in (('sys.path', HOSTILE_ACTIONS[:9]), ('__import__', HOSTILE_ACTIONS[:9]), ('sys.modules', HOSTILE_ACTIONS[:9]), ('__build_class__', HOSTILE_ACTIONS[9:11]),
+                         ('sys.stdout', HOSTILE_ACTIONS[11:14]), ('builtins.print', HOSTILE_ACTIONS[11:14])):
+            for s_ in HOSTILE_SLOTS:
+                if sl in s_:
+                    for v in HOSTILE_VALUES:
+                        for a in acts:
+                            sel.add((s_ % v, a))
+        combos = sorted(sel)
+    for i, (slot, act) in enumerate(combos):
+        out.append({'id': 'h%d' % i, 'src': HOSTILE_TMPL % {'slot': slot, 'action': act}, 'family': 'hostile-hook', 'label': '%s / %s' % (slot, act.split('\n')[0])})
+    for k, src in RECURSION_PROGRAMS.items():
+        out.append({'id': 'rec-' + k, 'src': src, 'family': 'recursion', 'label': k})
+    return out
+
+
 def limit_mem():
     try:
         resource.setrlimit(resource.RLIMIT_AS, (6 << 30, 6 << 30))
@@ -376,7 +466,16 @@ def run(tier, rep):
     reprogs = reentrant_programs(tier, r)
     remeta = {p['id']: p for p in reprogs}
     progs += [{'id': p['id'], 'src': p['src']} for p in reprogs]
+    dprogs = directed_programs(tier, r)
+    dmeta = {p['id']: p for p in dprogs}
+    progs += [{'id': p['id'], 'src': p['src']} for p in dprogs if p['family'] != 'recursion']
     pres, _ = common.run_vrun('exec', progs, timeout_case=30)
+    # recursion programs: one fresh process per program (an abort must not take other cases with it), generous watchdog: growing a 1 GB stack takes a while
+    rprogs = [{'id': p['id'], 'src': p['src']} for p in dprogs if p['family'] == 'recursion']
+    rres, _ = common.run_vrun('exec', rprogs, timeout_case=240, extra=['-percase'], workers=6)
+    pres.update(rres)
+    progs += rprogs
+    d_out = {}
     re_out = {}
     for p in progs:
         g = pres.get(p['id'])
@@ -389,9 +488,17 @@ def run(tier, rep):
             k = 'panic' if g.get('panic') or g.get('crash') else (g.get('out') or '').strip().split('\n')[-1][:40] or ('uncaught ' + str(g.get('exc')))
             re_out[k] = re_out.get(k, 0) + 1
             nontriv.add(('reentrant', rm['reop'], rm['react'].split('.')[0].split('[')[0].split(' ')[-1], k))
+        dm = dmeta.get(p['id'])
+        if dm:
+            k = 'panic' if g.get('panic') or g.get('crash') else ((g.get('out') or '').strip().split('\n')[-1][:20] or ('uncaught ' + str(g.get('exc'))))
+            d_out[dm['family'] + ':' + k] = d_out.get(dm['family'] + ':' + k, 0) + 1
+            nontriv.add(('directed', dm['family'], dm['label'].split(' = ')[0].split('(')[0], k))
         if g.get('panic') or g.get('crash') or g.get('harness_panic'):
             msg = str(g.get('panic') or g.get('harness_panic') or (re.search(r'fatal error: ([^\n]*)', g.get('log_tail', '')) or [None, 'abort'])[1])
-            if rm:
+            if dm:
+                rep.violation('C10|directed|%s|%s|panic:%s' % (dm['family'], dm['label'] if dm['family'] == 'recursion' else dm['label'].split(' = ')[0].split('(')[0], normmsg(msg)),
+                              {'case': {'id': p['id'], 'src': p['src']}, 'family': dm['family'], 'label': dm['label'], 'got': {k: common.short(v, 1500) for k, v in g.items()}})
+            elif rm:
                 rep.violation('C10|reentrant|op=%s|panic:%s' % (rm['reop'], normmsg(msg)), {'case': p, 'operation': rm['reop'], 'callback_action': rm['react'], 'trigger_call': rm['trig'], 'burst': rm['burst'],
                                                                                       'got': {k: common.short(v, 1500) for k, v in g.items()}})
             else:
@@ -399,7 +506,7 @@ def run(tier, rep):
     rep.nontrivial = nontriv
     rep.samples = [{'kind': c['kind'], 'callable': sig_target(c), 'receiver': c.get('recv'), 'args': (expand(c) or [[]])[min(3, len(expand(c)) - 1)], 'kw': c.get('kw')} for c in C[:6]]
     rep.rule = ('every callable in builtins (%d) and in the attribute table of the type of every universe value (bound to a receiver and unbound), every unary/binary/ternary operator entry point of the py package and %d source snippets compiled and run by the VM, '
-                'x all argument tuples of arity 0-2 over a universe of %d values (huge values only sampled in quick) and arity 3 over a %d-value sub-universe, plus keyword forms; plus generated programs (program generator; full-grammar modules of the C06 generator over a universal object); plus re-entrant callback programs: %d container operations x %d mutations of the container performed by the callback (key function, rich comparison, __hash__, __index__, __iter__, __repr__, feeding generator) x trigger position; '
+                'x all argument tuples of arity 0-2 over a universe of %d values (huge values only sampled in quick) and arity 3 over a %d-value sub-universe, plus keyword forms; plus generated programs (program generator; full-grammar modules of the C06 generator over a universal object); plus re-entrant callback programs: %d container operations x %d mutations of the container performed by the callback (key function, rich comparison, __hash__, __index__, __iter__, __repr__, feeding generator) x trigger position; plus directed programs: interpreter-visible hooks (sys.path, sys.modules, sys.stdout, builtins.__import__, __build_class__, print, len, ...) rebound to values of the wrong kind or deleted x the actions that consult them, and unbounded / very deep recursion through every route (function, method, generator, map, sort key, __repr__, __getattr__, self-containing and deeply nested containers, deeply nested source text), one process each; '
                 'non-trivial = distinct (callable, outcome class) pairs observed' % (len(L['builtins']), len([s for s in L['snippets'] if s]), len(L['universe']), 14, len(RE_OPS), len(RE_ACTIONS)))
-    rep.extra = {'calls': ncalls, 'batches': len(C), 'batches_redone': len(redo), 'outcome_classes': dict(sorted(outcomes.items(), key=lambda kv: -kv[1])[:25]), 'programs': len(progs), 'reentrant_programs': len(reprogs), 'reentrant_outcomes': re_out, 'universe': L['universe']}
+    rep.extra = {'calls': ncalls, 'batches': len(C), 'batches_redone': len(redo), 'outcome_classes': dict(sorted(outcomes.items(), key=lambda kv: -kv[1])[:25]), 'programs': len(progs), 'reentrant_programs': len(reprogs), 'reentrant_outcomes': re_out, 'directed_programs': len(dprogs), 'directed_outcomes': d_out, 'universe': L['universe']}
     rep.assumptions = ['pure CPU time (e.g. sum(range(2**62))) is inconclusive; process aborts and Go panics are violations', 'workers run with GOMEMLIMIT=3GiB; cwd is a scratch directory']
